@@ -128,6 +128,7 @@ template<class V> static void run(const VpCase* c, VpOutcome* o) {
     if (avel::any(m) != (popc != 0)) { fail(o, -1, "any", "any(mask) wrong (popcount %u)", popc); return; }
     if (avel::all(m) != (popc == W)) { fail(o, -1, "all", "all(mask) wrong (popcount %u of %u)", popc, W); return; }
     if (avel::none(m) != (popc == 0)) { fail(o, -1, "none", "none(mask) wrong (popcount %u)", popc); return; }
+    if (!mask_consumers_ok<V>(m, exp, o, OPS[c->op].name)) return;      // the comparison's mask handed to keep / clear / blend
     uint64_t vm[VP_MAXL];
     V fromm{m};
     rd<V>(fromm, vm);
